@@ -134,8 +134,8 @@ def run_model(lines, timeout=600):
     return out
 
 
-class Watchdog(Exception):
-    pass
+class Watchdog(BaseException):
+    """not an Exception: the code under test must not be able to swallow it"""
 
 
 @contextlib.contextmanager
@@ -144,7 +144,7 @@ def time_limit(seconds):
         raise Watchdog("step/time watchdog: %ss exceeded" % seconds)
 
     old = signal.signal(signal.SIGALRM, handler)
-    signal.setitimer(signal.ITIMER_REAL, seconds)
+    signal.setitimer(signal.ITIMER_REAL, seconds, 1.0)     # fires again every second until cancelled
     try:
         yield
     finally:
@@ -187,7 +187,7 @@ def digest(obj):
     return hashlib.sha1(json.dumps(obj, sort_keys=True, default=str).encode()).hexdigest()[:16]
 
 
-def evaluate(component, cases, outcome, keep_samples=3, batch=2000):
+def evaluate(component, cases, outcome, keep_samples=3, batch=2000, deadline=None):
     """run the implementation on each case (component.run_impl), send the
     resulting queries to the model, compare"""
     pending = []
@@ -209,6 +209,9 @@ def evaluate(component, cases, outcome, keep_samples=3, batch=2000):
         pending.clear()
 
     for case in cases:
+        if deadline is not None and time.time() > deadline:
+            outcome.count("search-stopped-at-deadline")
+            break
         outcome.cases += 1
         try:
             qs = component.run_impl(case, outcome)
